@@ -198,10 +198,19 @@ impl Mirror {
     pub fn expect_more(&self) -> bool {
         self.pending_one > 0 || (0..self.pc.len()).any(|i| self.pc[i] == Pc::Parked && self.notified[i])
     }
-    fn pop_loop(&mut self, v: usize) -> Outcome {
-        if let Some(len) = self.batches.pop() {
+    /// `got`: the length of the batch the real market handed out (None while simulating ahead).  WHICH of the
+    /// offered batches is served is not part of any property (a LIFO stack today): the bookkeeping removes the batch
+    /// that was really served when one of that length is on offer, the newest one otherwise (the oracle judges the
+    /// content), so that it stays in step with the code under any service order.
+    fn pop_loop(&mut self, v: usize, got: Option<usize>) -> Outcome {
+        let pos = match got {
+            Some(n) => self.batches.iter().rposition(|&l| l == n).or(self.batches.len().checked_sub(1)),
+            None => self.batches.len().checked_sub(1),
+        };
+        if let Some(i) = pos {
+            let len = self.batches.remove(i);
             self.pc[v] = Pc::Running;
-            self.loc_len[v] += len;
+            self.loc_len[v] += got.unwrap_or(len);
             Outcome::Ret
         } else {
             self.oc = self.oc.saturating_sub(1);
@@ -217,15 +226,15 @@ impl Mirror {
             }
         }
     }
-    fn pop(&mut self, v: usize) -> Outcome {
+    fn pop(&mut self, v: usize, got: Option<usize>) -> Outcome {
         if !self.open {
             Outcome::Ret
         } else {
-            self.pop_loop(v)
+            self.pop_loop(v, got)
         }
     }
     /// returns false if the wake was not announced by any notification
-    fn wake(&mut self, v: usize) -> (bool, Outcome) {
+    fn wake(&mut self, v: usize, got: Option<usize>) -> (bool, Outcome) {
         let announced = if self.notified[v] {
             self.notified[v] = false;
             true
@@ -236,7 +245,7 @@ impl Mirror {
             false
         };
         self.oc += 1;
-        (announced, self.pop_loop(v))
+        (announced, self.pop_loop(v, got))
     }
     fn push_len(&mut self, len: usize) {
         if self.open {
@@ -346,14 +355,14 @@ impl Session {
         let v = it.worker;
         match it.kind {
             Kind::Pop => {
-                let o = m.pop(v);
+                let o = m.pop(v, if parked { None } else { Some(it.ret_len) });
                 if (o == Outcome::Park) != parked {
                     return Err(format!("orchestrator bookkeeping expected {:?} for {} but observed {:?}", o, it.ev, it.result));
                 }
                 if parked { self.parks += 1 } else if it.ret_len > 0 { self.gots += 1 }
             }
             Kind::Wake => {
-                let (announced, o) = m.wake(v);
+                let (announced, o) = m.wake(v, if parked { None } else { Some(it.ret_len) });
                 self.wakes += 1;
                 if !announced {
                     return Err(format!("wake of worker {} that nobody notified", v));
